@@ -143,6 +143,12 @@ func (w *writer) writeTimeFormat(wr io.Writer) error {
 		w.printf("writing metric ticks: %v", ticks)
 		return binary.Write(wr, binary.BigEndian, uint16(ticks))
 	case TimeCode:
+		// the frame rate is stored negated in the high byte; only for 1-128 frames per second that sets bit 15.
+		// Any other value (e.g. the zero value TimeCode{}) would end up as a division word that means metric ticks.
+		if tf.FramesPerSecond == 0 || tf.FramesPerSecond > 128 {
+			w.printf("ERROR: invalid TimeCode: %v frames per second", tf.FramesPerSecond)
+			return fmt.Errorf("invalid TimeCode: %v frames per second can't be written (must be 1-128, usually 24, 25, 29 or 30)", tf.FramesPerSecond)
+		}
 		// multiplication with -1 makes sure that bit 15 is set
 		err := binary.Write(wr, binary.BigEndian, int8(tf.FramesPerSecond)*-1)
 		if err != nil {
